@@ -391,14 +391,56 @@ async def tee_peer(
                             peer_buffer.append(item)
             yield buffer.popleft()
     finally:
-        # this peer is done – remove its buffer
-        for idx, peer_buffer in enumerate(peers):  # pragma: no branch
-            if peer_buffer is buffer:
-                peers.pop(idx)
-                break
-        # if we are the last peer, try and close the iterator
-        if not peers and isinstance(iterator, ACloseable):
-            await iterator.aclose()
+        await _tee_peer_done(iterator, buffer, peers)
+
+
+async def _tee_peer_done(
+    iterator: AsyncIterator[T], buffer: Deque[T], peers: List[Deque[T]]
+) -> None:
+    """Cleanup when an individual iterator of a :py:func:`~.tee` is done"""
+    # this peer is done – remove its buffer
+    for idx, peer_buffer in enumerate(peers):  # pragma: no branch
+        if peer_buffer is buffer:
+            peers.pop(idx)
+            break
+    # if we are the last peer, try and close the iterator
+    if not peers and isinstance(iterator, ACloseable):
+        await iterator.aclose()
+
+
+class _TeePeer(AsyncIterator[T]):
+    """
+    An individual iterator of a :py:func:`~.tee` that can always be closed
+
+    An async generator that was never started does not run its ``finally`` clause
+    when it is closed. This wrapper runs the cleanup of a :py:func:`tee_peer`
+    if it is closed before it was ever advanced.
+    """
+
+    __slots__ = ("_generator", "_unstarted")
+
+    def __init__(
+        self,
+        iterator: AsyncIterator[T],
+        buffer: Deque[T],
+        peers: List[Deque[T]],
+        lock: AsyncContextManager[Any],
+    ):
+        self._generator = tee_peer(iterator, buffer, peers, lock)
+        # the cleanup arguments as long as the generator has not been started
+        self._unstarted: Optional[
+            Tuple[AsyncIterator[T], Deque[T], List[Deque[T]]]
+        ] = (iterator, buffer, peers)
+
+    def __anext__(self) -> Awaitable[T]:
+        self._unstarted = None
+        return self._generator.__anext__()
+
+    async def aclose(self) -> None:
+        unstarted, self._unstarted = self._unstarted, None
+        await self._generator.aclose()
+        if unstarted is not None:
+            await _tee_peer_done(*unstarted)
 
 
 @public_module(__name__, "tee")
@@ -452,7 +494,7 @@ class Tee(Generic[T]):
         self._iterator = aiter(iterable)
         self._buffers: List[Deque[T]] = [deque() for _ in range(n)]
         self._children = tuple(
-            tee_peer(
+            _TeePeer(
                 iterator=self._iterator,
                 buffer=buffer,
                 peers=self._buffers,
